@@ -423,7 +423,9 @@ class CustomChords(Stream):
         for _ in range(n):
             yield {"notes": [[rng.choice("sh"), rng.randrange(7), rng.choice([0, 0, 1])] for _ in range(rng.randrange(2, 5))],
                    "tdeg": rng.randrange(12), "tmode": rng.choice(MODES), "toct": rng.choice([0, 1, -1]), "coct": rng.choice([0, 1, -1]),
-                   "melody": [dict(rand_note(rng, families=["b", "s", "c", "r", "l", "h"]), tags=[]) for _ in range(rng.randrange(1, 4))]}
+                   "melody": [dict(rand_note(rng, families=["b", "s", "c", "r", "l", "h"]), tags=[]) for _ in range(rng.randrange(1, 4))],
+                   # a score mixing ordinary (o) and custom (c) chords in any order
+                   "layout": "".join(rng.choice("oc") for _ in range(rng.randrange(1, 6)))}
 
     def impl(self, case):
         def f():
@@ -436,12 +438,21 @@ class CustomChords(Stream):
             sc = Score([cc, cc])
             s3 = Score.from_str(str(sc))
             p = pickle.loads(pickle.dumps(sc))
+            from musiclang.library import V, I
+            oc = (V % I.M)(violin__0=Melody([mk_note(n) for n in case["melody"]]))
+            mixed = Score([cc.copy() if ch == "c" else oc.copy() for ch in case.get("layout", "")])
+            mixed_ok = True
+            if mixed.chords:
+                back = Score.from_str(str(mixed))
+                back = back.to_score() if not isinstance(back, Score) else back
+                mixed_ok = [type(c).__name__ for c in back.chords] == [type(c).__name__ for c in mixed.chords] and bool(back == mixed) \
+                    and bool(eval(str(mixed).replace("\n", ""), ns).to_score() == mixed)
             desc = lambda c: [type(c).__name__, [str(n) for n in c.notes], c.tonality.degree, c.tonality.mode, c.tonality.octave, c.octave,
                               [[nm, [read_note(n) for n in m.notes]] for nm, m in c.score.items()]]
             same = lambda a, b: a[:6] == b[:6] and all(x[0] == y[0] and all(same_fields(p_, q_) for p_, q_ in zip(x[1], y[1]))
                                                       for x, y in zip(a[6], b[6]))
             return {"str": str(cc), "one": same(desc(cc), desc(c2)), "score": [same(desc(cc), desc(c)) for c in s3.chords] + [len(s3.chords) == 2],
-                    "pickle": [same(desc(cc), desc(c)) for c in p.chords], "eq": bool(s3 == sc)}
+                    "pickle": [same(desc(cc), desc(c)) for c in p.chords], "eq": bool(s3 == sc), "mixed": mixed_ok}
         return mlang.guarded(f)
 
     def spec(self, case, r):
@@ -449,6 +460,8 @@ class CustomChords(Stream):
             return {"sig": "custom-chord-raises", "msg": str(r)}
         if not (r["one"] and all(r["score"]) and all(r["pickle"]) and r["eq"]):
             return {"sig": "custom-chord-roundtrip", "msg": r["str"]}
+        if not r["mixed"]:
+            return {"sig": "custom-chord-roundtrip:mixed-score", "msg": f"layout {case.get('layout')} (o = ordinary chord, c = custom chord): from_str / eval of the text is not the score"}
         return None
 
 
